@@ -319,7 +319,10 @@ def check_safety(d, m, h, tol=1e-5):
                 if w is None:
                     continue
                 val = w + sgn * const
-                if val > tol * (1 + abs(const) + np.abs(g).sum() * 5):
+                # relative to the magnitude of the row's terms (a solver's feasibility tolerance is relative to its data), not to their
+                # sum - which is ~0 at an active or equality row
+                scale = 1 + np.abs(a) @ np.abs(xs) + abs(a0) + abs(con['coef'] * y0) + (np.abs(R) @ np.abs(xs) + np.abs(r0) + np.abs(con['coef'] * yz)).sum() * 5
+                if val > tol * scale:
                     out.append({'what': 'robust row violated', 'constraint': ci, 'row': k, 'sense': con['sense'],
                                 'own_set': con['own'] is not None, 'violation': float(val),
                                 'z': None if zw is None else zw.tolist(), 'x': xs.tolist()})
